@@ -1,6 +1,8 @@
 (* Tie for C01.  A case is a static interface DAG and a history; every step carries what the
    implementation did: an exception code (0 none, 1 ValueError, 2 anything else) and, at the
-   steps the generator chose to query, what every live instance and every class answered.
+   steps the generator chose to query, what every live instance and every class answered
+   (optionally preceded by a query of the class OBJECTS alone, made before anything at that
+   step computes implementedBy(cls): what a class provides must not depend on that).
    Sets of interfaces are bit masks (bit i = interface i).
 
    check_model : Model/Decl.v (the object of the theorems, eviction on) answers the same.
@@ -20,7 +22,10 @@ Definition iobs := (obj * nat * nat * list iface)%type.
    mask, list(directlyProvidedBy(cls)) *)
 Definition cobs := (cls * nat * nat * nat * nat * list iface)%type.
 Definition qobs := (list iobs * list cobs)%type.
-Definition stepobs := (nat * option qobs)%type.
+(* class object only, asked BEFORE anything that computes implementedBy(cls) at this step:
+   id, providedBy(cls) mask, I.providedBy(cls) mask, list(directlyProvidedBy(cls)) *)
+Definition cpobs := (cls * nat * nat * list iface)%type.
+Definition stepobs := (nat * option qobs * option (list cpobs))%type.
 Definition case_t := (igraph * list (op * stepobs))%type.
 
 Definition mask_of (l : list nat) : nat := fold_left (fun a i => Nat.lor a (Nat.shiftl 1 i)) l 0.
@@ -49,21 +54,31 @@ Definition cobs_eqb (a b : cobs) : bool :=
 Definition qobs_eqb (a b : qobs) : bool :=
   list_eqb iobs_eqb (fst a) (fst b) && list_eqb cobs_eqb (snd a) (snd b).
 
-Definition model_stepobs (g : igraph) (st' : state) (o : op) (want : bool) : stepobs :=
-  ((if raises g st' o then 1 else 0), if want then Some (model_query g st') else None).
+Definition model_cp (g : igraph) (st : state) : list cpobs :=
+  map (fun c => (c, mask_of (provided g st (TCls c)), mask_by g (i_providedBy g st (TCls c)), dpb st (TCls c)))
+      (class_ids st).
+Definition cpobs_eqb (a b : cpobs) : bool :=
+  let '(c, p, ip, d) := a in let '(c', p', ip', d') := b in
+  Nat.eqb c c' && Nat.eqb p p' && Nat.eqb ip ip' && lnat_eqb d d'.
+
+Definition model_stepobs (g : igraph) (st' : state) (o : op) (want wantcp : bool) : stepobs :=
+  ((if raises g st' o then 1 else 0), (if want then Some (model_query g st') else None),
+   (if wantcp then Some (model_cp g st') else None)).
 
 Fixpoint model_trace (g : igraph) (st : state) (h : list (op * stepobs)) : list stepobs :=
   match h with
   | [] => []
-  | (o, (_, q)) :: h' =>
+  | (o, (_, q, cp)) :: h' =>
       let st' := step true g st o in
-      model_stepobs g st' o (match q with Some _ => true | None => false end) :: model_trace g st' h'
+      model_stepobs g st' o (match q with Some _ => true | None => false end)
+                    (match cp with Some _ => true | None => false end) :: model_trace g st' h'
   end.
 
 Definition model_out (c : case_t) : list stepobs := model_trace (fst c) init (snd c).
 
 Definition stepobs_eqb (a b : stepobs) : bool :=
-  Nat.eqb (fst a) (fst b) && option_eqb qobs_eqb (snd a) (snd b).
+  let '(e, q, cp) := a in let '(e', q', cp') := b in
+  Nat.eqb e e' && option_eqb qobs_eqb q q' && option_eqb (list_eqb cpobs_eqb) cp cp'.
 
 Definition check_model (c : case_t) : bool :=
   list_eqb stepobs_eqb (model_out c) (map snd (snd c)).
@@ -100,6 +115,12 @@ Definition spec_query (g : igraph) (L : ledger) (q : qobs) : bool :=
   && lnat_eqb (map (fun a => let '(c, _, _, _, _, _) := a in c) (snd q)) (seq 0 (length (lcs L)))
   && forallb (spec_iobs g L) (fst q) && forallb (spec_cobs g L) (snd q).
 
+Definition spec_cp (g : igraph) (L : ledger) (cp : list cpobs) : bool :=
+  lnat_eqb (map (fun a => let '(c, _, _, _) := a in c) cp) (seq 0 (length (lcs L)))
+  && forallb (fun a => let '(c, p, ip, d) := a in
+                       within (lo_provided g L (TCls c)) (hi_provided g L (TCls c)) p && Nat.eqb ip p
+                       && within (lo_dpb L (TCls c)) (hi_dpb L (TCls c)) (mask_of d) && nodupb d) cp.
+
 Definition spec_exc (g : igraph) (L' : ledger) (o : op) (code : nat) : bool :=
   match o with
   | NoLongerProvides t x =>
@@ -114,10 +135,11 @@ Definition spec_exc (g : igraph) (L' : ledger) (o : op) (code : nat) : bool :=
 Fixpoint spec_trace (g : igraph) (L : ledger) (h : list (op * stepobs)) : bool :=
   match h with
   | [] => true
-  | (o, (code, q)) :: h' =>
+  | (o, (code, q, cp)) :: h' =>
       let L' := lstep g L o in
       spec_exc g L' o code
       && match q with Some q => spec_query g L' q | None => true end
+      && match cp with Some cp => spec_cp g L' cp | None => true end
       && spec_trace g L' h'
   end.
 
